@@ -72,4 +72,11 @@ CLAIMED.update({
   "technique": "symbolic execution + Sigma calculus (delta, Fubini, linearity) and extreme-term witness chains; z3",
  },
 })
+CLAIMED.update({
+ "C02": {
+  "text": "For all matrix sizes 2T x 2T and all partitions 0 <= n <= T (function and method wrapper, which passes the object's current matrix and n_subaps[0]): pointwise proof that C_on,off = C[:2n, 2n:] and C_off,off = C[2n:, 2n:] (the on-axis sensor is the first 2n rows) with the right shapes, that pinv receives rcond = svd_conditioning, and, in the matrix-algebra encoding with the Moore-Penrose contract of pinv, that R = C_on,off C_off,off^+ satisfies R C_oo C_oo^+ = R and R C_oo = C_no (C_oo^+ C_oo) (normal equations on the retained subspace), R C_oo = C_no when C_oo is invertible, and for a duplicated sensor (C_no = E C_oo) R C_oo = E C_oo and R = E. Minimum variance follows by Gauss-Markov (named lemma).",
+  "note": BASE + "A-MATH (Gauss-Markov); pinv is the Moore-Penrose pseudo-inverse of the (rank-truncated) matrix: library contract; rounding / conditioning not decided; the end-to-end clause is C01 composed with this contract. Refutation of algebraic identities: 2x2 real-matrix interpretation.",
+  "technique": "pointwise SMT obligations for block slicing + non-commutative polynomial rewriting with library contracts as rules (finite matrix interpretation to refute)",
+ },
+})
 NOT_APPLICABLE = {}
